@@ -391,3 +391,40 @@ def normalisation_oracle(ctx, ss, limit=60):
         if not abs(got - cx) <= tol * abs(cx):
             ctx.violation(f"normalisation of the sampler (jacobian = normalisation x U^(-D/2) V^(-dod)): stored {got!r}, "
                           f"I_tr Gamma(dod)/prod Gamma(w) pi^(DL/2) = {cx!r} (weights {c['weights']}, D={c['D']})", S.small_req(s), expected=cx, observed=got)
+
+
+def rng_entry_agreement(ctx, ss, k=8):
+    """`generate_sample_from_rng` with a scripted generator against `generate_sample_from_x_space_point` on the same numbers: exactly
+    get_dimension() numbers are drawn (no more, none redrawn) and the outcome - value or error - is the same; also with the stability
+    test on (tolerance 0: most points fail) and with surplus entries in edge_data"""
+    from .core import run_harness
+    NUM = ("status", "k", "uTrop", "vTrop", "u", "v", "jac")
+    sel = [s for s in ss if s.get("impl", {}).get("status") == "ok" and s["case"]["D"] <= 6][:k]
+    reqs, info = [], []
+    rng = ctx.rng
+    for i, s in enumerate(sel):
+        dim = len(s["req"]["x"])
+        for variant in ("plain", "tol0", "surplus_edge_data"):
+            ks = [rng.getrandbits(53) | 1 for _ in range(dim)]
+            base = dict(s["req"]); base.pop("api_graph", None); base.pop("tol", None)
+            if variant == "tol0":
+                base["tol"] = f2b(0.0)
+            if variant == "surplus_edge_data":
+                D = s["case"]["D"]
+                base["edge_data"] = list(base["edge_data"]) + [[None, [f2b(0.5)] * D], [f2b(1.0), [f2b(-1.0)] * D]]
+            rr = dict(base, op="rng", k=ks + [rng.getrandbits(53) for _ in range(6)]); del rr["x"]
+            reqs.append(rr); reqs.append(dict(base, x=[f2b(kk * 2.0 ** -53) for kk in ks])); info.append((s, dim, variant))
+    res = run_harness(reqs)
+    for i, (s, dim, variant) in enumerate(info):
+        a, b = res[2 * i], res[2 * i + 1]
+        ctx.count("rng_entry." + variant); ctx.count(f"rng_entry.status.{b.get('status')}")
+        small = dict(S.small_req(s), variant=variant, entry="generate_sample_from_rng")
+        if a.get("status") == "panic" and b.get("status") != "panic":
+            ctx.violation(f"generate_sample_from_rng panicked ({variant}) where the x-space entry point returns {b.get('status')}", small, observed=a); continue
+        if a.get("status") != "panic" and (a.get("draws") != dim or a.get("other_rng_calls")):
+            ctx.violation(f"generate_sample_from_rng ({variant}) draws {a.get('draws')} numbers (+{a.get('other_rng_calls')} other RNG calls), get_dimension() is {dim}",
+                          small, expected=dim, observed=a.get("draws")); continue
+        if {f: a.get(f) for f in NUM} != {f: b.get(f) for f in NUM}:
+            ctx.violation(f"generate_sample_from_rng ({variant}) returns {a.get('status')}, generate_sample_from_x_space_point on the drawn numbers {b.get('status')}"
+                          f"{'' if a.get('status') != b.get('status') else ' with different values'}", small,
+                          expected={f: b.get(f) for f in ("status", "u", "v", "jac")}, observed={f: a.get(f) for f in ("status", "u", "v", "jac")})
